@@ -95,6 +95,18 @@ def eval_point(pt, R):
     R.check(ok, 'shape', feats, pt, [tapers.shape, ev.shape], [(N, kk), (kk,)], 'wrong shape or non-finite values', outs=(tapers,))
     if not ok:
         return
+    if N <= 64 or N % 97 == 0:
+        # a result the caller keeps must survive later calls (same N and k, another NW; same N, another NW and k)
+        keep_t, keep_e = tapers.copy(), ev.copy()
+        R.calls(2)
+        try:
+            other = NW + 0.5 if NW + 0.5 < N / 2.0 else max(NW - 0.5, 0.5)
+            spectrum.dpss(N, other, kk)
+            spectrum.dpss(N, other, None)
+            R.check(np.array_equal(keep_t, np.asarray(tapers)) and np.array_equal(keep_e, np.asarray(ev)), 'kept_result', feats, pt, None, None,
+                    'tapers / concentration ratios returned earlier changed when dpss was called again with another NW')
+        except Exception as e:
+            R.viol('kept_result', dict(feats, exc=type(e).__name__), pt, repr(e), None, 'second dpss call raised')
     G = tapers.T @ tapers
     R.check(close(G, np.eye(kk), 0.0, 1e-8), 'orthonormal', feats, pt, G, np.eye(kk), 'columns are not orthonormal', err=float(np.max(np.abs(G - np.eye(kk)))))
     kmax = max(kk, int(math.floor(2 * NW)))
